@@ -10,6 +10,8 @@
                         "ackearly" the reply is sent before the rename,
                         "linked"   account creation by temp + link(2) + unlink temp: with two crashes a leftover
                                    hard link lets the next update's O_TRUNC open of the temp name empty the account file,
+                        "excltemp" the fixed temp name is created with O_EXCL: a temp file left by a kill makes every later
+                                   save fail, while handlers such as HandleDisconnectUser acknowledge anyway,
                         hygiene    (Variant intended, invariant Hygiene) a crash inside an account rename leaves the
                                    complete old account under the new file name.
    Gen_Persist.cfg      simulation without crashes: the sequence of updates of a walk is emitted as a script that
@@ -95,6 +97,7 @@ NextSys == \E k \in (IF crashes < MaxCrashes THEN {"whole", "part", "empty"} ELS
              StepSys(k) /\ UNCHANGED <<started, crashes, world, hist>>
 
 NextFinish == Finish /\ UNCHANGED <<started, crashes, world, hist>>
+NextFail == Fail /\ UNCHANGED <<started, crashes, world, hist>>      \* unreachable with the intended protocols
 
 NextCrash == /\ crashes < MaxCrashes \/ phase = "cut"
              /\ Crash
@@ -110,7 +113,7 @@ NamesMatch == \A p \in DOMAIN dir : (p.st = "accts" /\ p.role = "final" /\ FStat
 Hygiene == phase = "up" => NamesMatch
 NextResume == NamesMatch /\ Resume /\ UNCHANGED <<started, crashes, world, hist>>
 
-Next == NextStart \/ NextSys \/ NextFinish \/ NextCrash \/ NextRecover \/ NextResume
+Next == NextStart \/ NextSys \/ NextFinish \/ NextFail \/ NextCrash \/ NextRecover \/ NextResume
 
 Spec == Init /\ [][Next]_mcvars
 
